@@ -53,6 +53,11 @@ pub fn fill_sparse(cfg: &Cfg) -> Vec<Cmd> {
     let mut v = vec![];
     for r in 0..cfg.rows {
         v.push(Cup(Some(r as u32 + 1), Some(1)));
+        if cols >= 12 && cfg.rows > 3 && r == cfg.rows - 2 {
+            // a row that is blank AND soft-wrapped: blanks typed up to the right edge and beyond
+            v.push(Text(format!("{}y", " ".repeat(cfg.cols))));
+            continue;
+        }
         let len = 1 + (r * 5) % (cfg.cols / 3).max(2);
         let s: String = (0..len)
             .map(|k| match (r + k) % 9 {
@@ -68,12 +73,9 @@ pub fn fill_sparse(cfg: &Cfg) -> Vec<Cmd> {
             v.push(Cup(Some(r as u32 + 1), Some(cols * 5 / 8)));
             v.push(Text("mid".into()));
         }
-        if cols >= 12 && r == 1 && cfg.rows > 3 {
-            // a row that is blank AND soft-wrapped: blanks typed up to the right edge and beyond
-            v.push(Cup(Some(cfg.rows as u32 - 1), Some(1)));
-            v.push(Text(format!("{}y", " ".repeat(cfg.cols))));
-        }
-        if cols >= 12 {
+        if cols >= 12 && r % 4 != 1 {
+            // stretches erased under other pens (not on every row: on the others the rest of
+            // the row really is untouched)
             v.push(sgr1(44));
             v.push(Cup(Some(r as u32 + 1), Some(cols / 2)));
             v.push(Ech(Some(cols / 8 + 1)));
